@@ -270,7 +270,12 @@ func (ex *Exec) applyContract(st *State, c *Contract, args []*Val, sig *types.Si
 			}
 		}
 	}
-	ex.havoc(st, env, c)
+	// the allocation counter moves first, so that results are live with respect to the post-state
+	if !c.Pure {
+		nn := ex.freshConst(st, "next", SInt)
+		st.assume(app(SBool, ">=", nn, st.next))
+		st.next = nn
+	}
 	// results
 	var res *Val
 	rn := resultNames(sig, c)
@@ -289,6 +294,8 @@ func (ex *Exec) applyContract(st *State, c *Contract, args []*Val, sig *types.Si
 			vars[rn[k]] = v
 		}
 	}
+	// frame (targets may mention the results, e.g. fields of a returned fresh object)
+	ex.havocTargetsOnly(st, env, c)
 	before := st.lines[:len(st.lines):len(st.lines)]
 	for _, e := range c.Ensures {
 		st.assume(env.evalBool(e))
@@ -316,6 +323,18 @@ func (ex *Exec) topPanicsAllowed(st *State) Term {
 		cs = append(cs, env.evalBool(p))
 	}
 	return mkOr(cs...)
+}
+
+// havocTargetsOnly applies the modifies clause without touching the allocation counter.
+func (ex *Exec) havocTargetsOnly(st *State, env *SpecEnv, c *Contract) {
+	if c.ModAny {
+		ex.fail("call of %s with an unbounded frame (modifies *) cannot be summarised", c.Key)
+	}
+	preEnv := *env
+	preEnv.cur = env.old
+	for _, t := range ex.resolveTargets(&preEnv, c.Modifies) {
+		ex.havocTarget(st, t)
+	}
 }
 
 // havoc applies the frame of a contract to the state.
@@ -688,6 +707,7 @@ func (ex *Exec) builtin(st *State, in ssa.Instruction, name string, cc *ssa.Call
 		return ex.copyOp(st, args[0], args[1], cc.Args[0].Type(), cc.Args[1].Type())
 	case "delete":
 		mt := cc.Args[0].Type().Underlying().(*types.Map)
+		ex.lockCheck(st, in, args[0], true)
 		ex.mapDelete(st, mt, args[0].T, args[1].T)
 		return &Val{}
 	case "recover":
